@@ -98,12 +98,15 @@ def blob (ds : DS) (loc : Bytes) : String :=
 
 def DS.bump (ds : DS) (k : String) : DS := { ds with st := ds.st.bump k }
 /-- only the first 40 reports of each kind are printed in full (they carry the whole table); all are counted -/
-def DS.disagree (ds : DS) (msg : String) : IO DS := do
-  if ds.st.disagree < 40 then IO.println s!"DISAGREE {msg}"
+def DS.disagreeL (ds : DS) (msg : Unit → String) : IO DS := do
+  if ds.st.disagree < 40 then IO.println s!"DISAGREE {msg ()}"
   return { ds with st := { ds.st with disagree := ds.st.disagree + 1 } }
-def DS.oracleFail (ds : DS) (msg : String) : IO DS := do
-  if ds.st.oracle < 40 then IO.println s!"ORACLE {msg}"
+def DS.oracleFailL (ds : DS) (msg : Unit → String) : IO DS := do
+  if ds.st.oracle < 40 then IO.println s!"ORACLE {msg ()}"
   return { ds with st := { ds.st with oracle := ds.st.oracle + 1 } }
+
+def DS.disagree (ds : DS) (msg : String) : IO DS := ds.disagreeL (fun _ => msg)
+def DS.oracleFail (ds : DS) (msg : String) : IO DS := ds.oracleFailL (fun _ => msg)
 
 def implReport (ds : DS) (code : Nat) : Option Nat := (ds.rbytes.find? (fun p => p.1 == code)).map (·.2)
 
@@ -125,7 +128,11 @@ def oracleS (ds : DS) (flt : Fault) (sender recip : Bytes) (iout : Outcome) (iev
       let dom := recip.drop (j + 1)
       if loc.isEmpty then chk (iout == .exit 0 && noExec ievs) "null-recipient"
       else if flt == .cdbOpen || flt == .chdir then chk (noExec ievs && isExit) "db-error-not-deferred"
-      else if ds.raw then []
+      else if ds.raw then
+        -- a raw (corrupted/truncated) cdb: if reading it fails on the way to this address the delivery must be deferred
+        (match nughdeCdb ds.env.cdb loc with
+         | .exit _ => chk (noExec ievs && isExit) "db-error-not-deferred"
+         | _ => [])
       else
         -- what the tables say: none = unknown; some none = the lookup must fail
         let viaPw : Option (Option Bytes) := match specGetpw ds.env.pw loc with
@@ -173,10 +180,10 @@ def handleS (ds : DS) (fltS senderH recipH oc codeS logS : String) : IO DS := do
       let sameOut := iout == mout ||
         (ds.raw && (iout == .exit QLX_NOMEM && mout == .exit QLX_CDB))
       if !(sameOut && (ievs == mevs || (ds.raw && iout == .exit QLX_NOMEM))) then
-        ds ← ds.disagree s!"in={inb ()} kind=spawn fault={fltS} sender={senderH} recip={recipH} raw={ds.raw} impl={oc} {codeS} {logS} model={showOutcome mout} {repr mevs}"
+        ds ← ds.disagreeL (fun _ => s!"in={inb ()} kind=spawn fault={fltS} sender={senderH} recip={recipH} raw={ds.raw} impl={oc} {codeS} {logS} model={showOutcome mout} {repr mevs}")
       let bad := oracleS ds flt sender recip iout ievs
       if !bad.isEmpty then
-        ds ← ds.oracleFail s!"in={inb ()} kind=spawn what={",".intercalate bad} fault={fltS} sender={senderH} recip={recipH} impl={oc} {codeS} {logS}"
+        ds ← ds.oracleFailL (fun _ => s!"in={inb ()} kind=spawn what={",".intercalate bad} fault={fltS} sender={senderH} recip={recipH} impl={oc} {codeS} {logS}")
       if fresh && oc == "X" && ds.st.samples < 3 && recip.length > 4 then
         IO.println s!"SAMPLE S fault={fltS} recip={recipH} impl={oc} {logS}"
         ds := { ds with st := { ds.st with samples := ds.st.samples + 1 } }
@@ -221,12 +228,12 @@ def handle (ds : DS) (line : String) : IO DS := do
         | _, _ => false
       if !agree then
         let ms := match m with | some mb => s!"0 len={mb.length} {(hex mb).take 200}" | none => "111"
-        ds ← ds.disagree s!"in={blob ds []} kind=newu assign={ah} impl={rcS} len={(match icdb with | some b => b.length | none => 0)} err={eh} model={ms}"
+        ds ← ds.disagreeL (fun _ => s!"in={blob ds []} kind=newu assign={ah} impl={rcS} len={(match icdb with | some b => b.length | none => 0)} err={eh} model={ms}")
       -- oracle: the file is compiled iff the independent reading accepts it
       let sp := specParse a
       ds := { ds with tbl := if rc == 0 then sp else none }
       if (rc == 0) != sp.isSome then
-        ds ← ds.oracleFail s!"in={blob ds []} kind=newu what={if rc == 0 then "malformed-table-compiled" else "valid-table-refused"} assign={ah} rc={rcS}"
+        ds ← ds.oracleFailL (fun _ => s!"in={blob ds []} kind=newu what={if rc == 0 then "malformed-table-compiled" else "valid-table-refused"} assign={ah} rc={rcS}")
       return ds
     | _, _, _ => ds.disagree "unparsable N line"
   | ["C", ch] =>
@@ -243,16 +250,16 @@ def handle (ds : DS) (line : String) : IO DS := do
       let impl : Lk := if r == 1 then .found d else if r == 0 then .notFound else .err
       -- r = -1 (seek error) and r = -2 (data unreadable) are both "err" for nughde_get
       if impl != m then
-        ds ← ds.disagree s!"in={blob ds []} kind=seek raw={ds.raw} key={kh} impl={rS} {dh} model={showLk m}"
+        ds ← ds.disagreeL (fun _ => s!"in={blob ds []} kind=seek raw={ds.raw} key={kh} impl={rS} {dh} model={showLk m}")
       match ds.tbl with
       | some t =>
         let want := assocFind (pairsOf t) k
         let st := findStruct (pairsOf t) k
         if st != want then
-          ds ← ds.disagree s!"in={blob ds []} kind=struct key={kh} struct={repr st} source={repr want}"
+          ds ← ds.disagreeL (fun _ => s!"in={blob ds []} kind=struct key={kh} struct={repr st} source={repr want}")
         let ok := match want with | some w => impl == .found w | none => impl == .notFound
         if !ok then
-          ds ← ds.oracleFail s!"in={blob ds []} kind=cdb what=compiled-table-differs-from-source key={kh} impl={rS} {dh} source={repr want}"
+          ds ← ds.oracleFailL (fun _ => s!"in={blob ds []} kind=cdb what=compiled-table-differs-from-source key={kh} impl={rS} {dh} source={repr want}")
       | none => pure ()
       return ds
     | _, _, _, _ => ds.disagree "unparsable K line"
@@ -267,9 +274,9 @@ def handle (ds : DS) (line : String) : IO DS := do
       let impl : GpwRes := if rc == 0 then .out o else .exit rc
       let m := getpwMain ds.env.pw l
       if impl != m || (rc != 0 && !o.isEmpty) then
-        ds ← ds.disagree s!"in={blob { ds with assign := [] } l} kind=getpw local={lh} impl={rcS} {oh} model={repr m}"
+        ds ← ds.disagreeL (fun _ => s!"in={blob { ds with assign := [] } l} kind=getpw local={lh} impl={rcS} {oh} model={repr m}")
       if impl != specGetpw ds.env.pw l then
-        ds ← ds.oracleFail s!"in={blob { ds with assign := [] } l} kind=getpw what=password-file-rules local={lh} impl={rcS} {oh} spec={repr (specGetpw ds.env.pw l)}"
+        ds ← ds.oracleFailL (fun _ => s!"in={blob { ds with assign := [] } l} kind=getpw what=password-file-rules local={lh} impl={rcS} {oh} spec={repr (specGetpw ds.env.pw l)}")
       return ds
     | _, _, _ => ds.disagree "unparsable G line"
   | ["S", fltS, senderH, recipH, oc, codeS, logS] => handleS ds fltS senderH recipH oc codeS logS
